@@ -25,6 +25,11 @@ static bool vx_wf_at(size_t i)
     int l = spec_utf8_len(vx_in[i]);
     return l >= 1 && vx_len - i >= (size_t)l && spec_wf_utf8(vx_at(i), vx_at(i + 1), vx_at(i + 2), vx_at(i + 3), l);
 }
+/* ghost window: the input bytes at the current position, loaded once per loop iteration (an iteration consumes at most 4 bytes);
+ * the decoded output is compared with the window instead of re-reading the unbounded input array for every character written */
+static uint8_t vx_w[4]; static size_t vx_w_base;
+static void vx_window(size_t off) { vx_w_base = off; vx_w[0] = vx_at(off); vx_w[1] = vx_at(off + 1); vx_w[2] = vx_at(off + 2); vx_w[3] = vx_at(off + 3); }
+static bool vx_in_matches(size_t k, uint8_t b) { size_t d = k - vx_w_base; return k < vx_len && d < 4 && vx_w[d] == b; }
 /* every character pushed to the sink goes through the RFC 8259 string decoder; what it decodes is compared with the input on the fly */
 static void vx_esc_out(char ch)
 {
@@ -35,10 +40,10 @@ static void vx_esc_out(char ch)
     if ((unsigned char)ch >= 0x80) vx_out_nonascii = true;
     if (ch == '/') { if (was_esc) vx_esc_solidus = true; else vx_raw_solidus = true; }
     if (r < 0) vx_bad = true;
-    if (r >= 1) { if (!(vx_k < vx_len) || vx_in[vx_k] != out[0]) vx_bad = true; vx_k++; }
-    if (r >= 2) { if (!(vx_k < vx_len) || vx_in[vx_k] != out[1]) vx_bad = true; vx_k++; }
-    if (r >= 3) { if (!(vx_k < vx_len) || vx_in[vx_k] != out[2]) vx_bad = true; vx_k++; }
-    if (r >= 4) { if (!(vx_k < vx_len) || vx_in[vx_k] != out[3]) vx_bad = true; vx_k++; }
+    if (r >= 1) { if (!vx_in_matches(vx_k, out[0])) vx_bad = true; vx_k++; }
+    if (r >= 2) { if (!vx_in_matches(vx_k, out[1])) vx_bad = true; vx_k++; }
+    if (r >= 3) { if (!vx_in_matches(vx_k, out[2])) vx_bad = true; vx_k++; }
+    if (r >= 4) { if (!vx_in_matches(vx_k, out[3])) vx_bad = true; vx_k++; }
     __CPROVER_assert(!vx_bad, "[C01][C08] every character written keeps the output inside the RFC 8259 string language and decodes to the next input bytes");
 }
 
